@@ -412,7 +412,7 @@ class XtcePacketDefinition(common.AttrComparable):
                     raise UnrecognizedPacketTypeError(
                         f"Detected an abstract container with no valid inheritors by restriction criteria. "
                         f"This might mean this packet type is not accounted for in the provided packet definition. "
-                        f"APID={packet['PKT_APID']}.",
+                        f"APID={packet.raw_data.apid}.",
                         partial_data=packet)
                 break
 
